@@ -36,15 +36,37 @@ def text(v):
         return s
 
 
+REPOS = ["file:///nonexistent/terminologies/repoA.xml", "file:///nonexistent/terminologies/repoB.xml",
+         "file:///nonexistent/terminologies/repoC.xml"]
+
+
+def set_repositories(docs, variant):
+    """several different repository URLs within one export: on Documents and on some of their Sections"""
+    from odml import terminology
+    for i, d in enumerate(docs):
+        d.repository = REPOS[(variant + 2 * i) % 3]
+        for j, s in enumerate(d.itersections()):
+            if (j + variant) % 3 == 0:
+                s.repository = REPOS[(variant + i + j + 1) % 3]
+    for t in list(terminology.terminologies.loading.values()):
+        try:
+            t.join()
+        except RuntimeError:
+            pass
+    terminology.terminologies.loading.clear()
+
+
 def world_of(docs, idtok):
     objs = {"d%d" % (i + 1): d for i, d in enumerate(docs)}
     st, objs = W.project_full(objs, idtok)
+    st["rdfrepo"] = {h: ("none" if getattr(o, "_repository", None) is None else str(o._repository)) if st["kind"][h] in ("doc", "sec") else "none"
+                     for h, o in objs.items()}
     st["rdfattrs"] = {}
     for h, o in objs.items():
         k = st["kind"][h]
         a = {}
         for n in CARRIED.get(k, ()):
-            v = getattr(o, n)
+            v = getattr(o, n, None)
             if v is not None and v != "":
                 a[n] = text(v) if n != "dtype" else str(v)
         st["rdfattrs"][h] = a
@@ -53,6 +75,35 @@ def world_of(docs, idtok):
     for h, o in objs.items():
         st["rdfvals"][h] = [val_tok("(%s)" % ";".join(v)) if isinstance(v, list) else val_tok(v) for v in o.values] if st["kind"][h] == "prop" else []
     return st, objs
+
+
+def _round_vals(vals):
+    out = []
+    for v in vals:
+        if v["t"] == "float":
+            try:
+                out.append({"t": "float", "e": ["%.5g" % float(x) for x in v["e"]]})
+                continue
+            except ValueError:
+                pass
+        out.append(v)
+    return out
+
+
+def digits_only(w, r):
+    """classification of an import mismatch (not a verdict): everything agrees once floats are compared to 5 significant digits"""
+    by_id = {}
+    for y, k in r["kind"].items():
+        by_id.setdefault(r["id"][y], y)
+    for x, k in w["kind"].items():
+        if k not in ("doc", "sec", "prop"):
+            continue
+        y = by_id.get(w["id"][x])
+        if y is None or r["kind"][y] != k or r["name"][y] != w["name"][x] or r["rdfattrs"][y] != w["rdfattrs"][x]:
+            return False
+        if _round_vals(r["vals"][y]) != _round_vals(w["vals"][x]):
+            return False
+    return True
 
 
 def val_tok(v):
@@ -73,7 +124,8 @@ def read_graph(g, objs, st):
             if hs:
                 return hs[0]
         return "?" + s[-12:]
-    out = {"hubs": set(), "hubdocs": [], "nodes": {}, "types": {}, "subclassof": {}, "attrs": {}, "kids": {}, "plist": {}, "vals": {}}
+    out = {"hubs": set(), "hubdocs": [], "nodes": {}, "types": {}, "subclassof": {}, "attrs": {}, "kids": {}, "plist": {}, "vals": {}, "repo": {}}
+    out["hubterms"] = sorted(set(str(t) for tn in g.objects(rdflib.URIRef(NS + "Hub"), rdflib.URIRef(NS + "hasTerminology")) for t in g.objects(tn, RDF.type)))
     for s, p, o in g.triples((None, rdflib.URIRef(NS + "hasDocument"), None)):
         out["hubs"].add(hof(s))
         out["hubdocs"].append(hof(o))
@@ -87,6 +139,7 @@ def read_graph(g, objs, st):
             if ps.startswith(NS) and ps[len(NS):] in PRED and PRED[ps[len(NS):]] != "name":
                 a[PRED[ps[len(NS):]]] = text(v.toPython()) if PRED[ps[len(NS):]] != "dtype" else str(v.toPython())
         out["attrs"][h] = a
+        out["repo"][h] = sorted(str(t) for tn in g.objects(node, rdflib.URIRef(NS + "hasTerminology")) for t in g.objects(tn, RDF.type))
         out["kids"][h] = sorted(hof(x) for x in g.objects(node, rdflib.URIRef(NS + "hasSection")))
         out["plist"][h] = sorted(hof(x) for x in g.objects(node, rdflib.URIRef(NS + "hasProperty")))
         vals = []
@@ -118,6 +171,7 @@ def replay(t):
             for i in range(ndocs):
                 objs0 = W.build(st0, mk=D.mk(variant + 5 * i, t.get("salt", 0) + i))
                 docs.append(objs0["d1"])
+            set_repositories(docs, variant)
             idtok = W.IdTok()
             w, objs = world_of(docs, idtok)
             dh = ["d%d" % (i + 1) for i in range(ndocs)]
@@ -131,13 +185,13 @@ def replay(t):
                 rec["g"] = read_graph(g, objs, w)
             except Exception as e:
                 rec["out"], rec["exc"] = "raised", type(e).__name__
-                rec["g"] = {"hubs": [], "hubdocs": [], "nodes": {}, "types": {}, "subclassof": {}, "attrs": {}, "kids": {}, "plist": {}, "vals": {}}
+                rec["g"] = {"hubs": [], "hubdocs": [], "nodes": {}, "types": {}, "subclassof": {}, "attrs": {}, "kids": {}, "plist": {}, "vals": {}, "repo": {}, "hubterms": []}
             yield rec
             shared = None
             for fmt in FORMATS:
                 for entry in ("string", "file", "reused"):
                     rec = {"fam": "rdf", "src": "model", "t": "import", "sub": sub, "ndocs": ndocs, "variant": variant, "docs": dh, "w": w,
-                           "out": "ok", "exc": "none", "fmt": fmt, "entry": entry, "imp": []}
+                           "out": "ok", "exc": "none", "fmt": fmt, "entry": entry, "imp": [], "digits_only": False}
                     try:
                         wr = RDFWriter(docs, **kw)
                         if entry == "string":
@@ -156,6 +210,7 @@ def replay(t):
                         r, robjs = world_of(loaded, idtok)
                         rec["r"] = r
                         rec["imp"] = ["d%d" % (i + 1) for i in range(len(loaded))]
+                        rec["digits_only"] = digits_only(w, r)
                     except Exception as e:
                         rec["out"], rec["exc"] = "raised", type(e).__name__
                         rec["r"] = world_of([], idtok)[0]
